@@ -347,9 +347,45 @@ void run_facade(Ctx& ctx, u64 c, unsigned nops) {
     static const unsigned cbit6[3] = {8, 12, 13};  // 0x0D6: C0, C1, C2
     static const unsigned disbit[3] = {8, 12, 13}; // 0x0D4: CI0, CI1, CI2
 
+    // long runs of unread writes to one channel: now and then a channel is written 240 (or 65520) times without a read and
+    // the following 20 operations are forced to be further writes to it, each followed by the full observation, so that
+    // the number of consecutive unread writes walks through 255/256/257 (65535/65536/65537)
+    unsigned forced_left = 0, forced_dir = 0, forced_i = 0;
     for (unsigned op = 0; op < nops && !bad; ++op) {
         unsigned i = (unsigned)g.below(3);
         unsigned kind = (unsigned)g.below(100);
+        if (forced_left == 0 && g.chance(1, 150)) {
+            forced_dir = (unsigned)g.below(2);
+            forced_i = (unsigned)g.below(3);
+            const unsigned pre = g.chance(1, 4) ? 65520 : 240;
+            RunResult pr = Classify([&] {
+                for (unsigned k = 0; k < pre; ++k) {
+                    u16 v = (u16)(0x4000 + k);
+                    if (forced_dir == 0) {
+                        t.SendData((std::uint8_t)forced_i, v);
+                        if (M[C2D].send(forced_i, v))
+                            icu_lo = icu_hi = true;
+                    } else {
+                        t.MMIOWrite((u16)(0x0C0 + 4 * forced_i), v);
+                        M[D2C].send(forced_i, v);
+                    }
+                }
+            });
+            if (pr.outcome != OK) {
+                ctx.violation("facade:assert:write-run", "a run of unread writes ended in " + pr.what, c);
+                break;
+            }
+            hist.add(fmt("%s x%u without a read", forced_dir == 0 ? fmt("host:SendData(%u,..)", forced_i).c_str() : fmt("dsp:write REPLY%u", forced_i).c_str(), pre));
+            ctx.count("unread_write_runs");
+            ctx.count("unread_write_run_words", pre);
+            ctx.seen("nt", fmt("facade:unread-run:%s:%u", forced_dir == 0 ? "host" : "dsp", pre));
+            forced_left = 20;
+        }
+        if (forced_left) {
+            --forced_left;
+            i = forced_i;
+            kind = forced_dir == 0 ? 0 : 16; // host-send / dsp-send
+        }
         // keep the pending bit mostly clear so that every demanded interrupt is visible as a 0->1 change
         if (icu_hi && g.chance(4, 5)) {
             t.MMIOWrite(0x202, 0x4000);
